@@ -50,7 +50,8 @@ theorem removeAt_spec (a : Arr) (i : Nat) (m : Mem) (hinv : a.Inv) :
   unfold removeAt Spec.Seq.removeAt
   by_cases hi : i < a.size
   · have h5 : ¬ i ≥ a.size := by omega
-    have h6 : decide (a.size ≤ a.buf.length) = true := by simp; omega
+    have h6 : (decide (i < a.buf.length) && decide (i + 1 + (a.size - 1 - i) ≤ a.buf.length)) = true := by
+      simp; omega
     simp only [h5, if_false, abs_length, hi, if_true, h6, Mem.check_true, abs_getD a i hi]
     have hk := closeGap_kept a i
     refine ⟨by trivial, by trivial, closeGap_abs a i hi (by omega), hk.1, by omega, by trivial, by simp, by simp, ?_⟩
@@ -208,7 +209,9 @@ theorem remove_spec (a : Arr) (x : Nat) (m : Mem) (hinv : a.Inv) :
     obtain ⟨j1, j2⟩ := i4 _ i2
     have hk := closeGap_kept a (a.abs.idxOf x)
     rw [i2]
-    simp only [Option.getD_some]
+    have h6 : decide (a.abs.idxOf x + 1 + (a.size - 1 - a.abs.idxOf x) ≤ a.buf.length) = true := by
+      simp; omega
+    simp only [Option.getD_some, h6, Mem.check_true]
     refine ⟨by trivial, by trivial, ?_, hk.1, by omega, by trivial, by simp, by simp⟩
     rw [closeGap_abs a _ j1 (by omega), j2]
   · have hne : (a.indexOf x m).1 = .errOutOfRange := by
